@@ -542,3 +542,23 @@ Proof. intros C j H. apply in_or_app. right. apply C. exact H. Qed.
 (* a permutation of 0..n-1 is a completion order *)
 Lemma perm_covers n o : Permutation (seq 0 n) o -> covers n o.
 Proof. intros H j Hj. eapply Permutation_in; [exact H|]. apply in_seq. lia. Qed.
+
+(* ------------------------------------------------------------------ the shared transport *)
+(* what a request gets does not depend on the requests that went through the transport before it *)
+Lemma tr_round_trip_history_free st r : snd (tr_round_trip st r) = snd (tr_round_trip TrFresh r).
+Proof. reflexivity. Qed.
+
+Lemma tr_run_history_free {W} (rs : list (W * tr_req)) : forall st,
+  tr_run st rs = map (fun wr => (fst wr, snd (tr_round_trip TrFresh (snd wr)))) rs.
+Proof.
+  induction rs as [|[w r] t IH]; intros st; simpl; [reflexivity|]. rewrite IH. reflexivity.
+Qed.
+
+(* hence the answers are the same for every order in which the requests reach the transport *)
+Lemma tr_run_order_free {W} (rs rs' : list (W * tr_req)) st st' w r :
+  In (w, r) rs -> In (w, r) rs' ->
+  exists ok, In (w, ok) (tr_run st rs) /\ In (w, ok) (tr_run st' rs') /\ ok = snd (tr_round_trip TrFresh r).
+Proof.
+  intros I I'. exists (snd (tr_round_trip TrFresh r)). rewrite !tr_run_history_free.
+  split; [|split; [|reflexivity]]; apply in_map_iff; exists (w, r); split; auto.
+Qed.
